@@ -1,6 +1,5 @@
 import numpy as np
-from scipy.sparse.csgraph import min_weight_full_bipartite_matching
-from scipy.sparse import csr_matrix
+from scipy.optimize import linear_sum_assignment
 
 from socialchoicekit.utils import check_square_matrix
 from socialchoicekit.profile_utils import ValuationProfile, Profile
@@ -41,8 +40,10 @@ class MaximumWeightMatching:
     """
     check_square_matrix(valuation_profile)
 
-    biadjacency_matrix = csr_matrix(np.where(np.isnan(valuation_profile), 0, valuation_profile))
-    _, col_ind = min_weight_full_bipartite_matching(biadjacency_matrix, maximize=True)
+    # NaN (unacceptable) pairs can never be used. Genuine zero utilities stay usable.
+    weights = np.where(np.isnan(valuation_profile), -np.inf, valuation_profile.view(np.ndarray))
+    # Raises ValueError if no one-to-one assignment of acceptable pairs exists.
+    _, col_ind = linear_sum_assignment(weights, maximize=True)
     return col_ind + self.index_fixer
 
 def root_n_serial_dictatorship(
